@@ -19,6 +19,9 @@ while i<len(src):
             i+=1
             if depth==0 and (l.rstrip().endswith(';') or (started and l.strip().endswith('}'))):
                 break
+        # do not leave two blank lines (or a blank line before a closing brace) behind
+        if out and out[-1].strip()=='' and i<len(src) and (src[i].strip()=='' or src[i].strip().startswith('}')):
+            out.pop()
         continue
     out.append(line);i+=1
 open(sys.argv[1],'w').write('\n'.join(out))
